@@ -38,7 +38,7 @@ func init() {
 	core.Register(&core.Check{
 		ID: "C10", World: "A (authority lifecycle)", Level: "fault_enumeration",
 		Rule: "one evaluation = one rotation executed under a fault plan over the numbered calls it makes to key manager, signer, certificate authority and object store, followed by a fresh-process health probe (sign + verify with the recorded primary) and a fault-free recovery rotation; " +
-			"planned runs sweep EVERY call index x {err-before, err-after(lost ack), crash-after} for every shipped KM x CA x {library, CLI} configuration (quick: after bootstrap; thorough: also after 1 and 2 clean rotations) plus sampled fault pairs; random runs draw plans with per-call rates, or run a CHAIN of 2-4 rotations each under its own random plan and drawn --overwrite with no recovery in between (faults meeting the leftovers of earlier failed attempts), checked after every rotation; " +
+			"planned runs sweep EVERY call index x {err-before, err-after(lost ack), crash-after} for every shipped KM x CA x {library, CLI} configuration (quick: after bootstrap; thorough: also after 1 and 2 clean rotations) plus sampled fault pairs; random runs draw plans with per-call rates, or run a CHAIN of 2-4 rotations each under its own random plan and drawn --overwrite / --keep_going with no recovery in between (faults meeting the leftovers of earlier failed attempts), checked after every rotation; " +
 			"non-trivial = at least one fault fired inside the rotation; distinct by event fingerprint",
 		Exhaustive: "single-fault sweep: every call index of the fault-free rotation x 3 fault kinds, per configuration",
 		Assumptions: []string{
@@ -256,8 +256,9 @@ func runC10Chain(r *core.Run, a *Authority, cfg Config, plan *seams.FaultPlan, h
 			plan.Kinds = append(plan.Kinds, seams.CrashAfter)
 		}
 		ow := r.Bool("chain-overwrite")
+		kg := r.Chance(30, "chain-keep-going")
 		a.Now = a.Now.Add(24 * time.Hour)
-		rotErr, crashed := a.Rotate(RotArgs{Flags: Flags{Overwrite: ow}})
+		rotErr, crashed := a.Rotate(RotArgs{Flags: Flags{Overwrite: ow, KeepGoing: kg}})
 		plan.Mode = 0
 		fired := plan.Fired
 		total += fired
@@ -268,7 +269,7 @@ func runC10Chain(r *core.Run, a *Authority, cfg Config, plan *seams.FaultPlan, h
 				firstSite = site
 			}
 		}
-		shape = append(shape, fmt.Sprintf("rot(ow=%v)->%s", ow, errClass(rotErr, crashed)))
+		shape = append(shape, fmt.Sprintf("rot(ow=%v,kg=%v)->%s", ow, kg, errClass(rotErr, crashed)))
 		when := fmt.Sprintf("after rotation %d of a chain [%s]", i+1, strings.Join(shape, " "))
 		for _, d := range a.Destroys {
 			if d.Name == oldPrimary && !d.AfterFinalizeOK {
